@@ -16,7 +16,8 @@ use log4rs::append::rolling_file::policy::compound::roll::delete::DeleteRoller;
 use serde_json::json;
 
 /// (name, value) — values are '$'-free as the property requires.
-const VARS: [(&str, &str); 9] = [
+const VARS: [(&str, &str); 10] = [
+    ("L4V_G", "g{}h"),
     ("L4V_A", "plain"),
     ("L4V_B", ""),
     ("L4V_C", "with{braces}"),
@@ -86,7 +87,8 @@ pub fn model(input: &str) -> String {
     out
 }
 
-const PIECES: [&str; 42] = [
+const PIECES: [&str; 44] = [
+    "$ENV{L4V_G}", "$ENV{L4V_G}$ENV{L4V_B}",
     "$ENV{é", "$ENV{L4V_A\u{301}}", "$ENV{𝄞}", "💥", "$ENV{L4V_A}}", "{$ENV{L4V_A}", "$ENV{L4V_A}$ENV{L4V_F}", "$ENV{L4V_Aé}",
     "log", "é", "a b", "x", "_", ".", "-", "$", "$$", "{", "}", "$ENV", "$ENV{", "ENV{", "$env{L4V_A}", "$ENV {L4V_A}",
     "$ENV{L4V_A}", "$ENV{L4V_B}", "$ENV{L4V_C}", "$ENV{L4V_D}", "$ENV{L4V_E}", "$ENV{L4V_F}", "$ENV{L4V.dot_1}", "$ENV{_L4V}",
@@ -178,9 +180,10 @@ fn one_case(rep: &mut Report, rng: &mut Rng, idx: u64) {
             }
         }
         _ => {
-            if s.contains("{}") || s.contains("L4V_C") {
-                return; // index substitution and expansion would interact; their order is not judged
+            if s.contains("{}") {
+                return; // a literal "{}" in the input is an index placeholder of the pattern itself
             }
+            // (a "{}" inside a variable's VALUE is not part of the pattern: the index must not go there)
             let pattern = format!("{}/arch/a_{}_.{{}}", sc.path.to_str().unwrap(), s);
             let active = sc.join("active.log");
             let count = 2 + (idx / 3 % 2) as u32;
@@ -217,6 +220,64 @@ fn one_case(rep: &mut Report, rng: &mut Rng, idx: u64) {
     }
 }
 
+/// References at byte 0 of a relative path (the process works in a scratch directory meanwhile).
+fn leading_reference_cases(rep: &mut Report) {
+    let sc = Scratch::new("c19cwd");
+    let old = std::env::current_dir().ok();
+    if std::env::set_current_dir(&sc.path).is_err() {
+        rep.inconclusive("cannot change the working directory");
+        return;
+    }
+    std::env::set_var("L4V_ABS", sc.path.join("absdir").to_str().unwrap());
+    let cases: Vec<(String, String)> = vec![
+        ("$ENV{L4V_B}lead-empty.log".into(), "lead-empty.log".into()),
+        ("$ENV{L4V_B}$ENV{L4V_B}two-empties.log".into(), "two-empties.log".into()),
+        ("$ENV{L4V_B}x$ENV{L4V_UNSET}.log".into(), "x$ENV{L4V_UNSET}.log".into()),
+        ("$ENV{L4V_A}-lead.log".into(), "plain-lead.log".into()),
+        ("$ENV{L4V_B}$ENV{L4V_A}.log".into(), "plain.log".into()),
+        ("$ENV{L4V_ABS}/abs.log".into(), "absdir/abs.log".into()),
+        ("$ENV{L4V_UNSET}lead.log".into(), "$ENV{L4V_UNSET}lead.log".into()),
+    ];
+    for (i, (raw, want)) in cases.iter().enumerate() {
+        for site in 0..3 {
+            let sub = format!("case{}_{}", i, site);
+            let _ = std::fs::create_dir_all(sc.path.join(&sub));
+            let _ = std::env::set_current_dir(sc.path.join(&sub));
+            rep.case_enumerated(true);
+            let r = trap::catch(|| -> Result<(), String> {
+                match site {
+                    0 => FileAppender::builder().build(raw).map(|_| ()).map_err(|e| e.to_string()),
+                    1 => RollingFileAppender::builder()
+                        .build(raw, Box::new(CompoundPolicy::new(Box::new(SizeTrigger::new(1 << 30)), Box::new(DeleteRoller::new()))))
+                        .map(|_| ())
+                        .map_err(|e| e.to_string()),
+                    _ => {
+                        std::fs::write("active.tmp", b"x").map_err(|e| e.to_string())?;
+                        let roller = FixedWindowRoller::builder().build(&format!("{}.{{}}", raw), 2).map_err(|e| e.to_string())?;
+                        roller.roll(std::path::Path::new("active.tmp")).map_err(|e| e.to_string())
+                    }
+                }
+            });
+            let base = if want.starts_with("absdir/") { sc.path.clone() } else { sc.path.join(&sub) };
+            let want_rel = if site == 2 { format!("{}.0", want) } else { want.clone() };
+            let got: Vec<String> = dir_files(&base).keys().filter(|k| !k.starts_with("case")).cloned().collect();
+            rep.count("locations_compared", 1);
+            rep.count("leading_reference_cases", 1);
+            let ok = matches!(r, Ok(Ok(()))) && got.iter().any(|g| *g == want_rel);
+            if !ok {
+                rep.violation("C19:wrong-location:reference-at-the-start-of-the-path", json!({"input": raw, "call_site": site,
+                    "expected_file": want_rel, "created": got, "result": format!("{:?}", r.map_err(|p| p.message))}));
+            }
+            if want.starts_with("absdir/") {
+                let _ = std::fs::remove_dir_all(sc.path.join("absdir"));
+            }
+        }
+    }
+    if let Some(o) = old {
+        let _ = std::env::set_current_dir(o);
+    }
+}
+
 fn directory_cases(rep: &mut Report) {
     // a value containing path separators: the file lands in the expanded directory
     for (k, raw_rel, want_rel) in [
@@ -249,6 +310,9 @@ pub fn run(rep: &mut Report) {
     let n = if rep.tier == "thorough" { 150_000 } else { 20_000 };
     run_cases(rep, "string", n, one_case);
     directory_cases(rep);
+    if rep.only.is_none() {
+        leading_reference_cases(rep);
+    }
     rep.require(rep.counter("locations_compared") > 1000, "fewer than 1000 locations compared");
     rep.require(rep.counter("strings_with_at_least_one_substitution") > 500, "too few strings with substitutions");
 }
